@@ -583,7 +583,9 @@ pub fn check(rec: &RunRecord) -> Vec<Violation> {
             if frames.len() > n_all {
                 out.push(Violation::new("C04", "C04.unknown_lane_count", "more", format!("peer {peer} lane {lane:?}: {} unlinked frames for {} requests", frames.len(), n_all)));
             }
-            if clean_end && q.is_some() && info.closed_read.is_none() && info.closed_write.is_none() && !info.write_failed {
+            // (A remote the runtime itself gave up on - no link for the prune delay, failed write - is no longer answered.)
+            let given_up = rec.hist.disconnects.iter().any(|(_, p, why)| p == peer && (why.contains("RemoteTimedOut") || why.contains("ChannelClosed")));
+            if clean_end && q.is_some() && info.closed_read.is_none() && info.closed_write.is_none() && !info.write_failed && !given_up {
                 let before_q = frames.iter().filter(|f| f.step <= q.unwrap()).count();
                 let reqs_done = reqs.iter().filter(|s| s.ok && s.end <= q.unwrap()).count();
                 if before_q != reqs_done {
@@ -672,7 +674,10 @@ pub fn check(rec: &RunRecord) -> Vec<Violation> {
             // A remote that the runtime itself gave up on earlier (it held no link for the prune delay, or a write to it
             // failed) is not told anything when the agent stops later.
             let dropped_by_runtime = rec.hist.disconnects.iter().any(|(_, p, why)| p == peer && (why.contains("RemoteTimedOut") || why.contains("ChannelClosed")));
-            if !reader_ended_early && !dropped_by_runtime {
+            // When the agent task fails the runtime closes the links at once: a remote that is not reading at that
+            // moment (its channel is full) cannot be told.
+            let frozen_then = crashed_end && rec.hist.freezes.iter().any(|(s, p)| p == peer && rec.agent_ends.first().and_then(|e| e.as_ref()).map(|e| *s <= e.step).unwrap_or(false));
+            if !reader_ended_early && !dropped_by_runtime && !frozen_then {
                 if crashed_end {
                     out.push(Violation::new("C04", "C04.stop_without_unlinked", "agent_failed", format!("peer {peer} lane {lane}: link still open after the agent task failed and the runtime stopped")));
                 } else {
